@@ -61,6 +61,8 @@ def assign_ids(ast, policy, counter=None, top=True):
     _, _i, s, v, ch, fixed = ast
     if policy == 'explicit' or (policy == 'root' and top):
         i = "ABCDEFGHIJ"[next(counter)]
+    elif policy == 'varnamed':
+        i = "VAR" + "ABCDEFGHIJ"[next(counter)]      # explicit ids that LOOK like generated ones
     else:
         i = None
     return N(i, s, v, [assign_ids(c, policy, counter, False) for c in ch], fixed)
